@@ -36,7 +36,11 @@ EXHAUSTIVE_SCOPE = {
            "checksums the reference dissector locates; every option/TLV/record slot the dissector locates (TCP and IPv4 options, "
            "DHCP options, LLDP TLVs, ND options, IPv6 extension headers, IGMPv3 records, GRE source route entries) rewritten to every kind "
            "POX parses (plus an unknown one) x length {0,1,2,3,exact,exact+1,max}, also with the input ending at the slot; every "
-           "demultiplexing field set to every value that selects a POX parser; every LLC header with DSAP x SSAP x control format (SNAP / other "
+           "demultiplexing field set to every value that selects a POX parser; every length / count field (EAP length, EAPOL body length, IPv4 total length "
+           "and IHL, UDP length, TCP data offset, IPv6 payload length and extension header lengths, ARP address lengths, DNS counts and rdlength, IGMPv3 "
+           "counts, GRE offset, 802.3 length) set to {0, 1, header size-1, header size, header size+1, exact-1, exact+1, exact+2, max}, each also "
+           "followed by 1, 2 and 46 padding octets; option slots additionally with lengths exact-8/-4/-2/+2/+4 and, for MPTCP DSS, every flag "
+           "combination with the lengths RFC 6824 implies (with and without checksum); every LLC header with DSAP x SSAP x control format (SNAP / other "
            "SAPs, U-/I-/S-format) cut at each of its first ten octets; the text-bearing fields (DNS labels/TXT, LLDP strings, DHCP string options, "
            "sname/file, EAP identity) filled with valid 2-/3-/4-byte UTF-8 sequences and with malformed UTF-8",
   "thorough": "as quick, plus all 256 values at every byte offset that the reference dissector attributes to a header (not to the innermost payload)",
@@ -247,6 +251,17 @@ def enum_faults(tier):
         yield {"raw": f[:i] + bytes([v]) + f[i + 1:], "src": "corrupt:%s:%d:%s" % (name, i, op)}
 
 
+_VERIFIED = {}
+
+
+def _verifying(name, f):
+  """True when the frame reaches a POX parser that verifies a checksum before going on (ICMPv6, IGMP): only there does a repaired
+  checksum change what is parsed; elsewhere the repaired variant would only repeat the unrepaired one with other csum values"""
+  if name not in _VERIFIED:
+    _VERIFIED[name] = any(p in ("icmp6", "igmp") for p in P.dissect(f).protos())
+  return _VERIFIED[name]
+
+
 def enum_faults_repaired(tier):
   """the same single faults, each followed by a repair of the checksums (frames that carry one)"""
   for c in enum_faults(tier):
@@ -293,17 +308,40 @@ def _slot_variants(container, f, off, size):
   if container in ("ndopt", "ext6"):
     unit = size // 8
     exact = unit if container == "ndopt" else unit - 1
-    lens = (0, 1, 2, 3, exact, exact + 1, 255)
+    lens = (0, 1, 2, 3, exact, exact + 1, 255, exact - 1, exact + 2)
   elif container == "dhcpopt":
-    lens = (0, 1, 2, 3, size - 2, size - 1, 255)
+    lens = (0, 1, 2, 3, size - 2, size - 1, 255) + tuple(size - 2 + dl for dl in (-2, -4, -8, 2, 4))
   else:                      # tcpopt, ip4opt: the length octet counts the two header octets
-    lens = (0, 1, 2, 3, size, size + 1, 255)
+    lens = (0, 1, 2, 3, size, size + 1, 255) + tuple(size + dl for dl in (-2, -4, -8, 2, 4))
+  lens = tuple(dict.fromkeys(ln for ln in lens if 0 <= ln <= 255))
+  if container == "tcpopt" and size >= 4:
+    out.extend(_mptcp_dss_variants(off, size))
   for k in kinds:
     for ln in lens:
       out.append(("%d/%d" % (k, ln), [(off, bytes([k, ln & 0xff]))]))
       if container == "tcpopt" and k == 30 and off + 2 < len(f):
         for st in (0, 1, 2, 3, 4, 5, 6, 7, 15):
           out.append(("30.%d/%d" % (st, ln), [(off, bytes([k, ln & 0xff, (st << 4) | (f[off + 2] & 0xf)]))]))
+  return out
+
+
+def _mptcp_dss_variants(off, size):
+  """RFC 6824 section 3.3: every combination of the DSS flags (F, m, M, a, A) with the option length that combination implies,
+  with and without the trailing checksum, and one octet less / more; the rest of the slot is filled with NOPs so that the
+  option list stays well-formed"""
+  out = []
+  for fl in range(32):
+    good = 4 + ((8 if fl & 2 else 4) if fl & 1 else 0)
+    if fl & 4:
+      good += (8 if fl & 8 else 4) + 4 + 2 + 2
+    lens = [good, good - 1, good + 1]
+    if fl & 4:
+      lens += [good - 2, good - 3]               # DSS without the checksum (checksums not negotiated)
+    for ln in lens:
+      edits = [(off, bytes([30, ln, 0x20, fl]))]
+      if ln < size:
+        edits.append((off + ln, b"\x01" * (size - ln)))
+      out.append(("dss.%02x/%d" % (fl, ln), edits))
   return out
 
 
@@ -320,9 +358,10 @@ def enum_slots(tier):
   """structure-aware exhaustive driver: every option / TLV / record slot the reference dissector locates in a corpus frame gets
   every kind POX has a parser for (plus an unknown one) x length in {0,1,2,3,exact,exact+1,max}; each variant as is, with the
   frame cut right behind the rewritten header (1..3 octets: the slot ends the input) and right behind the slot, and each of
-  those once more with all checksums repaired."""
+  those once more with all checksums repaired where a POX parser verifies one (ICMPv6, IGMP)."""
   for name, f in corpus():
     d = P.dissect(f)
+    rep = _verifying(name, f)
     for container, off, size in d.slots:
       for label, edits in _slot_variants(container, f, off, size):
         m = _apply_edits(f, edits)
@@ -334,7 +373,79 @@ def enum_slots(tier):
           raw = m if cut is None else m[:cut]
           src = "slot:%s:%s:%s%s" % (container, name, label, "" if cut is None else ":cut")
           yield {"raw": raw, "src": src}
-          yield {"raw": raw, "fix": True, "src": "repaired-" + src}
+          if rep:
+            yield {"raw": raw, "fix": True, "src": "repaired-" + src}
+
+
+# length / count fields: (proto, field) -> (header size in the field's unit, how the value is stored)
+_LENGTHS = {
+  ("eap", "length"): (4, "int"), ("eapol", "bodylen"): (4, "int"),
+  ("ipv4", "totlen"): (20, "int"), ("ipv4", "vhl"): (5, "lo4"),
+  ("udp", "len"): (8, "int"), ("tcp", "offres"): (5, "hi4"),
+  ("ipv6", "plen"): (8, "int"), ("ipv6.ext0", "len"): (0, "int"), ("ipv6.ext43", "len"): (0, "int"), ("ipv6.ext60", "len"): (0, "int"),
+  ("arp", "hwlen"): (6, "int"), ("arp", "protolen"): (4, "int"),
+  ("dhcp", "hlen"): (6, "int"),
+  ("dns", "qdcount"): (1, "int"), ("dns", "ancount"): (1, "int"), ("dns", "nscount"): (1, "int"), ("dns", "arcount"): (1, "int"),
+  ("igmp", "nrec"): (1, "int"), ("gre", "route_offset"): (4, "int"),
+}
+_LENGTH_PREFIXES = (("dns", "rr", "_rdlen", 4), ("igmp", "rec", "_nsrc", 1), ("igmp", "rec", "_auxlen", 1))
+
+
+def _length_field(proto, fname, f, off, size):
+  """(header size, storage) when (proto, fname) is a length or count field"""
+  if (proto, fname) in _LENGTHS:
+    return _LENGTHS[(proto, fname)]
+  for p, pre, suf, hs in _LENGTH_PREFIXES:
+    if proto == p and fname.startswith(pre) and fname.endswith(suf):
+      return (hs, "int")
+  if proto in ("eth", "vlan") and fname == "type" and int.from_bytes(f[off:off + size], "big") < 1536:
+    return (3, "int")                    # IEEE 802.3 length; 3 = LLC header
+  return None
+
+
+def enum_lengths(tier):
+  """structure-aware exhaustive driver over LENGTH fields: every length / count field the reference dissector locates is set to
+  {0, 1, header size - 1, header size, header size + 1, exact - 1, exact + 1, exact + 2, max} (and 8 = LLC+SNAP for 802.3 lengths);
+  each variant as is and followed by 1, 2 and 46 padding octets (Ethernet minimum-size padding), each once more with the
+  checksums repaired where a POX parser verifies one (ICMPv6, IGMP)"""
+  for name, f in corpus():
+    d = P.dissect(f)
+    rep = _verifying(name, f)
+    for li, proto, fname, off, size in d.fields():
+      lf = _length_field(proto, fname, f, off, size)
+      if lf is None:
+        continue
+      hs, how = lf
+      cur = int.from_bytes(f[off:off + size], "big")
+      if how == "lo4":
+        exact, mx = cur & 0xf, 15
+      elif how == "hi4":
+        exact, mx = cur >> 4, 15
+      else:
+        exact, mx = cur, (1 << (8 * size)) - 1
+      vals = [0, 1, hs - 1, hs, hs + 1, exact - 1, exact + 1, exact + 2, mx, mx - 1]
+      if proto in ("eth", "vlan"):
+        vals += [8, 9, 1500, 1535]
+      if proto == "ipv4" and fname == "totlen":
+        ihl = (f[off - 2] & 0xf) * 4
+        vals += [ihl - 1, ihl, ihl + 1, ihl + 7, ihl + 8]
+      for v in dict.fromkeys(v for v in vals if 0 <= v <= mx and v != exact):
+        if how == "lo4":
+          enc = bytes([(cur & 0xf0) | v])
+        elif how == "hi4":
+          enc = bytes([(v << 4) | (cur & 0x0f)])
+        else:
+          enc = v.to_bytes(size, "big")
+        m = f[:off] + enc + f[off + size:]
+        for pad in (0, 1, 2, 46):
+          raw = m + b"\0" * pad
+          src = "length:%s.%s:%s:%d%s" % (proto, fname.rstrip("0123456789"), name, v, (":pad%d" % pad) if pad else "")
+          yield {"raw": raw, "src": src}
+          if rep:
+            yield {"raw": raw, "fix": True, "src": "repaired-" + src}
+    # valid frames with Ethernet padding behind them
+    for pad in (1, 2, 46):
+      yield {"raw": f + b"\0" * pad, "src": "length:valid:%s:pad%d" % (name, pad)}
 
 
 _DEMUX = {
@@ -574,6 +685,7 @@ def plan(tier):
       Enum("single-fault-checksums-repaired", lambda: enum_faults_repaired(tier), shards=16),
       Enum("option-tlv-slots", lambda: enum_slots(tier), shards=16),
       Enum("demux-keys", lambda: enum_demux(tier), shards=4),
+      Enum("length-fields", lambda: enum_lengths(tier), shards=8),
       Enum("llc-formats", lambda: enum_llc(tier), shards=8),
       Enum("utf8-text", lambda: enum_text(tier), shards=2),
       Hyp("mutation", lambda: _strategy(tier), examples=6000, shards=16),
@@ -583,6 +695,7 @@ def plan(tier):
     Enum("single-fault-checksums-repaired", lambda: enum_faults_repaired(tier), shards=16),
     Enum("option-tlv-slots", lambda: enum_slots(tier), shards=16),
     Enum("demux-keys", lambda: enum_demux(tier), shards=4),
+    Enum("length-fields", lambda: enum_lengths(tier), shards=8),
     Enum("llc-formats", lambda: enum_llc(tier), shards=8),
     Enum("utf8-text", lambda: enum_text(tier), shards=2),
     Enum("all-values-on-headers", lambda: enum_all_values(tier), shards=16),
